@@ -22,6 +22,8 @@ stochastic program.  Literal model of what the code does:
   vector divided by `nS+1`; `b`, `cType` repeated `nS+1` times; matrix: original rows, then per sample
   `i` the rows with present columns kept and future column `j` moved to
   `m + i*n_f + rank_f j` (`slpEmbed`; `rank_f = cumsum(If) - 1`).
+* read-out (`io.extract_output`): the contribution of a mapping row to the dispatch table is divided by the
+  number of distinct sample ids iff that row carries a sample id (`slpDispatchRows`).
 * mapping: original rows keep their label and get `slp_step_<I[0]>` = −1 where the label is a future
   variable (else NaN); then per sample `i` the rows of future variables are appended (all rows of
   such a variable, in mapping order) with sample number `i` and label `m + i*n_f + rank_f[label]`,
@@ -144,15 +146,16 @@ def distinctInts : List (Option Int) → List (Option Int) → List (Option Int)
 def slpNSamples (slp : List (Option Int)) : Nat :=
   (distinctInts (slp.filter (·.isSome)) []).length
 
-/-- steps whose dispatch row is divided: `time_step` of the mapping rows with a non-null sample id -/
-def slpSteps (M : List MapRow) (slp : List (Option Int)) : List Nat :=
-  (M.zip slp).filterMap fun (m, s) => if s.isSome then some m.step else none
+/-- dispatch table entry from mapping rows paired with their sample id: every row of the asset/node/step
+    contributes `x[label] * disp_factor`, divided by `k` iff THAT ROW carries a sample id
+    (`if not pd.isnull(r[myc]): my_disp = my_disp/n_samples[myc]`, io.py since commit 43d96c3; before, the whole
+    table row of a step was divided, finding F-17h) -/
+def slpDispatchRows (R : List (MapRow × Option Int)) (k : Rat) (a n : String) (t : Nat) (x : Vec) : Rat :=
+  ((R.filter fun p => p.1.asset == a && isDisp n t p.1).map fun p =>
+    if p.2.isSome then p.1.contrib x / k else p.1.contrib x).sum
 
-/-- dispatch table entry of an SLP result: summed over ALL mapping rows of the asset/node/step
-    (the copies of every sample included), then — if the step carries a sample id — divided by the
-    number of distinct sample ids (−1 counts) -/
+/-- dispatch table entry of an SLP result: `k` = number of distinct sample ids (−1 counts) -/
 def slpDispatchOut (M : List MapRow) (slp : List (Option Int)) (a n : String) (t : Nat) (x : Vec) : Rat :=
-  let v := dispatchOut M a n t x
-  if (slpSteps M slp).contains t then v / (slpNSamples slp : Rat) else v
+  slpDispatchRows (M.zip slp) (slpNSamples slp : Rat) a n t x
 
 end EAO
